@@ -111,4 +111,42 @@ theorem runScript_unchanged (t : Tables) (sc : Script)
           · simp
           · simp [he]
 
+/-! ## counters over one transaction of any kind and over histories -/
+
+theorem runScript_mono {t : Tables} (hw : WF t) (hk : KOK t) (sc : Script) (h : StepOK true t sc) : DMono t (runScript t sc).1 := by
+  cases sc with
+  | s x =>
+    show DMono t (runS t x).1
+    obtain ⟨a, b, c, d⟩ := runS_frame t x
+    have fD : ∀ k, findD (runS t x).1 k = findD t k := fun k => by simp [findD, a]
+    have fC : ∀ k, findC (runS t x).1 k = findC t k := fun k => by simp [findC, b]
+    refine ⟨fun k => by rw [seenD_congr a c]; exact optLe_refl _, runS_seenS hw x, fun k => by rw [seenC_congr b d]; exact optLe_refl _,
+      ?_, fun k a' b' => runS_change hw x, ?_⟩
+    · intro k a' b' ha hb; rw [fD] at hb; exact .inl (Option.some.inj (ha.symm.trans hb))
+    · intro k a' b' ha hb; rw [fC] at hb; exact .inl (Option.some.inj (ha.symm.trans hb))
+  | c x =>
+    show DMono t (runC t x).1
+    obtain ⟨a, b, c, d⟩ := runC_frame t x
+    have fD : ∀ k, findD (runC t x).1 k = findD t k := fun k => by simp [findD, a]
+    have fS : ∀ k, findS (runC t x).1 k = findS t k := fun k => by simp [findS, b]
+    refine ⟨fun k => by rw [seenD_congr a c]; exact optLe_refl _, fun k => by rw [seenS_congr b d]; exact optLe_refl _,
+      runC_seenC hw x (h rfl), ?_, ?_, fun k a' b' => runC_change hw x (h rfl)⟩
+    · intro k a' b' ha hb; rw [fD] at hb; exact .inl (Option.some.inj (ha.symm.trans hb))
+    · intro k a' b' ha hb; rw [fS] at hb; exact .inl (Option.some.inj (ha.symm.trans hb))
+  | d x => exact runD_mono hw hk x h
+
+/-- all counters (live or saved) of `t'` are at least those of `t` -/
+def SeenLe (t t' : Tables) : Prop := ∀ h, seenD t h ≤ seenD t' h ∧ seenS t h ≤ seenS t' h ∧ seenC t h ≤ seenC t' h
+
+theorem runHist_seen : ∀ (hist : List Script) (t : Tables), WF t → KOK t → HistOK true t hist → SeenLe t (runHist t hist) := by
+  intro hist
+  induction hist with
+  | nil => intro t _ _ _ h; exact ⟨optLe_refl _, optLe_refl _, optLe_refl _⟩
+  | cons sc rest ih =>
+    intro t hw hk h k
+    obtain ⟨a, b⟩ := runScript_wfk hw hk sc h.1
+    have m := runScript_mono hw hk sc h.1
+    obtain ⟨x, y, z⟩ := ih _ a b h.2 k
+    exact ⟨optLe_trans (m.seenD k) x, optLe_trans (m.seenS k) y, optLe_trans (m.seenC k) z⟩
+
 end Sdc.Mdib
